@@ -33,6 +33,7 @@ pub fn suites() -> Vec<(&'static str, Suite)> {
         ("fill_spans", c02::run_fill_spans as Suite),
         ("line_edge", c02::run_line_edge as Suite),
         ("quad_edge", c02::run_quad_edge as Suite),
+        ("cubic_edge", c02::run_cubic_edge as Suite),
         ("fill_px", c02::run_fill_px as Suite),
         ("aruns", c03::run_aruns as Suite),
         ("aa_spans", c03::run_aa_spans as Suite),
